@@ -1,6 +1,6 @@
 (* Props/C17.v — the theorems that decide property C17.  Statements only;
    every proof is [exact <lemma>]. *)
-From CKB Require Import Structs.AList Structs.Orphan Structs.OrphanProofs Structs.Inflight Structs.InflightProofs Structs.HeaderMap Structs.HeaderMapProofs Structs.Skip Structs.SkipProofs.
+From CKB Require Import Structs.AList Structs.Orphan Structs.OrphanProofs Structs.Inflight Structs.InflightProofs Structs.HeaderMap Structs.HeaderMapProofs Structs.Skip Structs.SkipProofs Structs.ActiveChain Structs.ActiveChainProofs.
 
 (* ---- (a) orphan pool ---------------------------------------------------------
    For every sequence of insert / remove_blocks_by_parent / clean_expired_blocks
@@ -167,6 +167,82 @@ Theorem c17_locator_example :
   /\ option_map (@length N) (get_locator (fun _ k => Some k) 0 40000 40000) = Some 26%nat.
 Proof. exact locator_example. Qed.
 
+(* ---- (e) ActiveChain on a node with a main-chain index, stored side branches and a header map ----
+   universe = header map + chain store (every block verify_block committed, side branches
+   included) + the snapshot's number => hash index + tip / unverified tip + the set of blocks with
+   an epoch index.  wf_b (decidable, re-evaluated on every universe observed on the real node):
+   views tell hash/number/parent of their block, parents and skip targets are known, a skip
+   pointer is the ancestor at the skip height, the index binds each number once to a known block
+   of that number whose parent is bound one lower.  anc u x n = the block reached from x by
+   walking parent links down to height n. *)
+(* get_ancestor with the shortcut guarded by is_main_chain: the parent walk for every known base
+   (main chain, stored side branch, branch of a branch, header-only), None above the base *)
+Theorem c17_active_get_ancestor_eq_walk : forall u, wf_b u = true ->
+  forall base number, known u base = true ->
+  ac_ga GCode u false base number
+  = if (number <=? unum u base)%N then Some (anc u base number) else None.
+Proof. exact ac_get_ancestor_eq_walk. Qed.
+
+(* get_ancestor_with_unverified (shortcut guarded by is_unverified_chain = "has an epoch index",
+   true for stored side branches too): the parent walk for every height above the unverified
+   tip, which is what its only caller (BlockFetcher::fetch in IBD: start = unverified tip + 1) asks *)
+Theorem c17_active_get_ancestor_unverified_above : forall u, wf_b u = true ->
+  forall base number, known u base = true -> (u_utip u < number)%N ->
+  ac_ga GCode u true base number
+  = if (number <=? unum u base)%N then Some (anc u base number) else None.
+Proof. exact ac_get_ancestor_unverified_above. Qed.
+
+(* ... and at every height when no stored side branch lies at or below the unverified tip *)
+Theorem c17_active_get_ancestor_unverified_inv : forall u, wf_b u = true -> stored_descend u = true ->
+  forall base number, known u base = true ->
+  ac_ga GCode u true base number
+  = if (number <=? unum u base)%N then Some (anc u base number) else None.
+Proof. exact ac_get_ancestor_unverified_inv. Qed.
+
+(* the shortcut on any stored block (is_main_chain || is_unverified_chain): from a stored side
+   tip the main-chain block is answered for a height above the fork point *)
+Theorem c17_active_any_stored_refuted :
+  exists u base number,
+    wf_b u = true /\ known u base = true /\ (number <= unum u base)%N /\
+    ac_ga GCode u false base number = Some (anc u base number) /\
+    ac_ga GAnyStored u false base number <> Some (anc u base number).
+Proof. exact ac_any_stored_refuted. Qed.
+
+(* the code's with_unverified variant asked at or below the unverified tip from a stored side
+   branch (outside what its caller asks): not the parent walk *)
+Theorem c17_active_unverified_below_tip_refuted :
+  exists u base number,
+    wf_b u = true /\ known u base = true /\ (number <= u_utip u)%N /\ (number <= unum u base)%N /\
+    ac_ga GCode u true base number <> Some (anc u base number).
+Proof. exact ac_unverified_below_tip_refuted. Qed.
+
+(* get_locator from any known start lists the start's ancestors at the locator heights *)
+Theorem c17_active_locator_eq_walk : forall u, wf_b u = true ->
+  forall genesis s, known u s = true ->
+  get_locator (ac_ga GCode u false) genesis (unum u s) s
+  = get_locator (fun _ k => Some (anc u s k)) genesis (unum u s) s.
+Proof. exact ac_locator_eq_walk. Qed.
+
+(* last_common_ancestor of two known blocks with a common root: an ancestor of both, at the
+   greatest height at which their ancestors coincide; no panic, no None *)
+Theorem c17_active_lca_spec : forall u, wf_b u = true ->
+  forall a b, known u a = true -> known u b = true -> anc u a 0 = anc u b 0 ->
+  exists nc, (nc <= N.min (unum u a) (unum u b))%N /\
+    last_common_ancestor (ac_ga_nh GCode u) (unum u a, a) (unum u b, b) = LSome (nc, anc u a nc) /\
+    anc u a nc = anc u b nc /\
+    forall k, (nc < k)%N -> (k <= N.min (unum u a) (unum u b))%N -> anc u a k <> anc u b k.
+Proof. exact ac_lca_spec. Qed.
+
+Theorem c17_active_example :
+  wf_b ex_u = true /\ stored_descend ex_u = false /\
+  wf_b ex_ibd = true /\ stored_descend ex_ibd = true /\
+  map (ac_ga GCode ex_u false 8) [5; 4; 3; 2; 1; 0; 6]%N = [Some 8; Some 7; Some 6; Some 3; Some 2; Some 1; None]%N /\
+  map (ac_ga GCode ex_u true 8) [5; 0]%N = [Some 8; Some 1]%N /\
+  get_locator (ac_ga GCode ex_u false) 1 5 8 = Some [8; 7; 6; 3; 2; 1]%N /\
+  last_common_ancestor (ac_ga_nh GCode ex_u) (4, 5)%N (5, 8)%N = LSome (2, 3)%N.
+Proof. exact ac_example. Qed.
+
+
 Redirect "out/C17.c17_orphan_refines" Print Assumptions c17_orphan_refines.
 Redirect "out/C17.c17_orphan_leaders_exact" Print Assumptions c17_orphan_leaders_exact.
 Redirect "out/C17.c17_orphan_example" Print Assumptions c17_orphan_example.
@@ -186,3 +262,11 @@ Redirect "out/C17.c17_get_ancestor_terminates" Print Assumptions c17_get_ancesto
 Redirect "out/C17.c17_get_ancestor_example" Print Assumptions c17_get_ancestor_example.
 Redirect "out/C17.c17_locator_eq_walk" Print Assumptions c17_locator_eq_walk.
 Redirect "out/C17.c17_locator_example" Print Assumptions c17_locator_example.
+Redirect "out/C17.c17_active_get_ancestor_eq_walk" Print Assumptions c17_active_get_ancestor_eq_walk.
+Redirect "out/C17.c17_active_get_ancestor_unverified_above" Print Assumptions c17_active_get_ancestor_unverified_above.
+Redirect "out/C17.c17_active_get_ancestor_unverified_inv" Print Assumptions c17_active_get_ancestor_unverified_inv.
+Redirect "out/C17.c17_active_any_stored_refuted" Print Assumptions c17_active_any_stored_refuted.
+Redirect "out/C17.c17_active_unverified_below_tip_refuted" Print Assumptions c17_active_unverified_below_tip_refuted.
+Redirect "out/C17.c17_active_locator_eq_walk" Print Assumptions c17_active_locator_eq_walk.
+Redirect "out/C17.c17_active_lca_spec" Print Assumptions c17_active_lca_spec.
+Redirect "out/C17.c17_active_example" Print Assumptions c17_active_example.
